@@ -89,8 +89,11 @@ Definition struct_frame (si : option streaminfo) (bytes : list N) : res (frame *
   end.
 
 (* ---- Subframe::decode (stream.rs:2343-2415): unbounded-Z reference semantics of a subframe ---- *)
-Definition dot (xs_rev coeffs : list Z) : Z :=
-  fold_left Z.add (map (fun xc => fst xc * snd xc)%Z (combine xs_rev coeffs)) 0%Z.
+Fixpoint dot (xs_rev coeffs : list Z) : Z :=
+  match xs_rev, coeffs with
+  | x :: xs, c :: cs => (x * c + dot xs cs)%Z
+  | _, _ => 0%Z
+  end.
 Fixpoint predict_z (coeffs : list Z) (shift : Z) (done_rev todo : list Z) : list Z :=
   match todo with
   | [] => rev done_rev
